@@ -20,16 +20,22 @@
      gen_correct_partial_print  : ONE {print e|d..} with d over id / noAutoescape / escapeHtml, under any
                                   autoescape mode (implicit soy.$$escapeHtml included) -- proved below, for
                                   values whose String() has no NUL and no double quote (finding quote-entity);
-                                  if / let / switch and sequences of statements -- not proved
+     gen_correct_partial_stmt   : statements built from raw text, such prints, {let $x: e /}, {let $x}..{/let},
+                                  {if}..{elseif}..{else}..{/if} and {switch}..{case v, w}..{default}..{/switch} with nested
+                                  blocks (sequences) of such statements -- proved below as ONE simulation step over three
+                                  sides (Interp walker, MiniJS execution, JsGen chunks) that re-establishes its own
+                                  hypotheses; gen_correct_partial_if / _let / _let_content / _switch are its instances by name
      gen_correct_partial_loops  : foreach / for / loop helpers   -- not proved
      gen_correct_partial_calls  : call / param / data=           -- not proved
      gen_correct_partial_msg    : msg / plural with a bundle     -- not proved
    MiniJS idealises JavaScript: numbers are integers (a result beyond 2^53 is
    OutOfModel), objects have no prototype chain, the operators are defined on
    the operand kinds of the subset only. *)
+(* source tie by translation: the lemmas of these files are obligations of this property *)
+From Soy Require Import Proofs.SourceTieJs.
 From Soy Require Import Model.Bytes Model.Num Model.Values Model.Outcome Model.Ast Model.JsGen Model.MiniJS
   Model.Escape Model.Directives Model.Print Generated.Tables Model.Interp
-  Proofs.MiniJSProofs Proofs.MiniJSPrint Proofs.MiniJSStmt.
+  Proofs.MiniJSProofs Proofs.MiniJSPrint Proofs.MiniJSStmt Proofs.MiniJSCtl.
 Open Scope N_scope.
 
 (* the Soy meaning restricted to the subset IS the walker of Interp.v, and the
@@ -114,13 +120,94 @@ Print Assumptions C04_gen_correct_partial_print_esc.
 Theorem C04_cgen_print_dirs : forall o e ds fuel st, (S (cdepth e) < fuel)%nat ->
   exists stf, jwalk o fuel (NPrint 0 (cnode e) (map pdir_node ds)) st = Ok (tt, stf)
     /\ j_out stf = rev ([CText (indent_text (j_indent st)); CName (j_buf st); CText t_pluseq]
-                        ++ jprint (cgen_print_expr (j_auto st) ds (cgen (j_scope st) e)) ++ [CText t_semi_nl]) ++ j_out st.
+                        ++ jprint (cgen_print_expr (j_auto st) ds (cgen (j_scope st) e)) ++ [CText t_semi_nl]) ++ j_out st
+    /\ j_indent stf = j_indent st /\ j_buf stf = j_buf st /\ j_scope stf = j_scope st /\ j_auto stf = j_auto st /\ j_n stf = j_n st.
 Proof. exact cgen_print_dirs. Qed.
 Print Assumptions C04_cgen_print_dirs.
 
 (* on clean text the escapers of the two backends agree *)
 Theorem C04_print_text_agree : forall mode ds s, clean s -> js_print_text mode ds s = go_print_text mode ds s.
 Proof. exact print_text_agree. Qed.
+
+(* the statement stages: raw text, {print e|ds}, {let $x: e /}, {if}/{elseif}/{else} and {switch}/{case}/{default},
+   with nested blocks.  One simulation step:
+   HYPOTHESES (the relation sim between a state st of the Go renderer's model, a JavaScript environment je and a
+   state jst of the generator): the writer does not fail (no capture buffer, no write budget); the scope stack is not
+   empty; every Soy variable is where the generator's scope says it is (env_rel); the generated names in scope and
+   the buffer variable have counters up to the generator's counter, and the buffer variable is none of them and not
+   opt_ijData (ginv); the buffer variable holds old; the generator's autoescape mode is the renderer's.
+   [sout] is the subset semantics: the bytes written and the environment afterwards (None = error or outside the subset).
+   CONCLUSION, whenever sout gives (text, env'):
+   (Go)  the Interp walker writes exactly text, keeps mode, keeps the frames below the innermost one, and a lookup
+         afterwards gives env';
+   (JS)  executing the MiniJS statement (sgen ..) succeeds;
+   (Gen) walking the same node in JsGen emits exactly the chunks of that MiniJS statement at the current indentation;
+   and the three resulting states satisfy the hypotheses again, with old ++ text in the buffer variable. *)
+Theorem C04_gen_correct_partial_stmt : forall cf o st je jst s fuel text env' old,
+  c_oblig cf = [] -> (sdepth s < fuel)%nat ->
+  bufs st = [] -> calls_left st = None -> bytes_left st = None -> ctx st <> [] ->
+  env_rel (j_scope jst) (c_ij cf) (sc_lookup (ctx st)) je ->
+  ginv (j_scope jst) (j_n jst) (j_buf jst) ->
+  assoc_s (j_buf jst) (je_vars je) = Some (JStr old) ->
+  j_auto jst = mode st ->
+  sout (c_ij cf) (mode st) go_print_text (sc_lookup (ctx st)) s = Some (text, env') ->
+  exists st' ws rv je' jst',
+    let j := fst (sgen (mode st) (j_buf jst) (j_scope jst) (j_n jst) s) in
+    walk cf fuel (snode s) st = (Ok rv, st') /\ out st' = rev ws ++ out st /\ concat_b ws = text
+    /\ mode st' = mode st /\ tl (ctx st') = tl (ctx st) /\ (forall k, sc_lookup (ctx st') k = env' k)
+    /\ js_exec je j = Ok je' /\ je_data je' = je_data je
+    /\ jwalk o fuel (snode s) jst = Ok (tt, jst') /\ j_out jst' = rev (sprint (j_indent jst) j) ++ j_out jst
+    /\ j_indent jst' = j_indent jst /\ j_buf jst' = j_buf jst /\ tl (j_scope jst') = tl (j_scope jst)
+    /\ bufs st' = [] /\ calls_left st' = None /\ bytes_left st' = None /\ ctx st' <> []
+    /\ env_rel (j_scope jst') (c_ij cf) (sc_lookup (ctx st')) je'
+    /\ ginv (j_scope jst') (j_n jst') (j_buf jst')
+    /\ assoc_s (j_buf jst') (je_vars je') = Some (JStr (old ++ text))
+    /\ j_auto jst' = mode st'.
+Proof. exact gen_correct_partial_stmt_unfolded. Qed.
+Print Assumptions C04_gen_correct_partial_stmt.
+
+(* its instances by stage name ([sim] is the conjunction of the hypotheses above, [sim_step] the conclusion above, both
+   for any writer that does not fail: the output without a budget, or a capture buffer of renderBlock -- [wrote st st' ws]
+   says the writes ws went to the innermost capture buffer if there is one, to the output otherwise) *)
+Theorem C04_gen_correct_partial_if : forall cf o st je jst c th rest fuel text env' old,
+  c_oblig cf = [] -> (sdepth (SIf c th rest) < fuel)%nat -> sim cf st je jst old ->
+  sout (c_ij cf) (mode st) go_print_text (sc_lookup (ctx st)) (SIf c th rest) = Some (text, env') ->
+  sim_step cf o st je jst (SIf c th rest) fuel text env' old.
+Proof. exact gen_correct_partial_if. Qed.
+Print Assumptions C04_gen_correct_partial_if.
+Theorem C04_gen_correct_partial_let : forall cf o st je jst name e fuel text env' old,
+  c_oblig cf = [] -> (sdepth (SLet name e) < fuel)%nat -> sim cf st je jst old ->
+  sout (c_ij cf) (mode st) go_print_text (sc_lookup (ctx st)) (SLet name e) = Some (text, env') ->
+  sim_step cf o st je jst (SLet name e) fuel text env' old.
+Proof. exact gen_correct_partial_let. Qed.
+Print Assumptions C04_gen_correct_partial_let.
+(* {let $x}..{/let}: the Go renderer captures the block in a buffer of its own (renderBlock) and binds the string; the
+   JavaScript declares  var x_n = '';  lets the block append to it, and binds the name afterwards *)
+Theorem C04_gen_correct_partial_let_content : forall cf o st je jst name body fuel text env' old,
+  c_oblig cf = [] -> (sdepth (SLetC name body) < fuel)%nat -> sim cf st je jst old ->
+  sout (c_ij cf) (mode st) go_print_text (sc_lookup (ctx st)) (SLetC name body) = Some (text, env') ->
+  sim_step cf o st je jst (SLetC name body) fuel text env' old.
+Proof. exact gen_correct_partial_let_content. Qed.
+Print Assumptions C04_gen_correct_partial_let_content.
+Theorem C04_gen_correct_partial_switch : forall cf o st je jst v cs fuel text env' old,
+  c_oblig cf = [] -> (sdepth (SSwitch v cs) < fuel)%nat -> sim cf st je jst old ->
+  sout (c_ij cf) (mode st) go_print_text (sc_lookup (ctx st)) (SSwitch v cs) = Some (text, env') ->
+  sim_step cf o st je jst (SSwitch v cs) fuel text env' old.
+Proof. exact gen_correct_partial_switch. Qed.
+Print Assumptions C04_gen_correct_partial_switch.
+
+(* the JavaScript side alone says more: every variable other than the buffer whose name, read as a generated name,
+   has a counter up to the generator's is left alone (so nothing an enclosing block relies on is overwritten) *)
+Theorem C04_js_exec_correct : forall ij mode buf s sc n env je old text env' j sc' n',
+  ginv sc n buf -> sout ij mode go_print_text env s = Some (text, env') ->
+  env_rel sc ij env je -> assoc_s buf (je_vars je) = Some (JStr old) ->
+  sgen mode buf sc n s = (j, (sc', n')) ->
+  exists je', js_exec je j = Ok je'
+    /\ (env_rel sc' ij env' je' /\ assoc_s buf (je_vars je') = Some (JStr (old ++ text)))
+    /\ (je_data je' = je_data je
+        /\ forall g, bounded n g -> bstr_eqb g buf = false -> assoc_s g (je_vars je') = assoc_s g (je_vars je)).
+Proof. exact js_exec_stmt. Qed.
+Print Assumptions C04_js_exec_correct.
 
 (* ---------------- non-vacuity ---------------- *)
 (* $a?.b + 2 * $x  with  a = {b: 5} in opt_data and x bound by a let (generated variable x3) *)
@@ -156,6 +243,75 @@ Example C04_print_esc_nonvacuous :
   /\ go_print_text 1 [PEscapeHtml; PId] (b "1<2") = b "1&lt;2" /\ js_print_text 3 [PNoAutoescape] (b "1<2") = b "1<2"
   /\ js_print_text 1 [] (b "q""q") = b "q&quot;q" /\ go_print_text 1 [] (b "q""q") = b "q&#34;q".
 Proof. vm_compute. repeat split; reflexivity. Qed.
+
+(* {if true}
+     {if $x > 3}{let $y: $x + 1 /}A{let $t}<{$y}{/let}{$t}{elseif $x > 1}E{else}B{/if}
+     {switch $x}{case 1, 2}one{case 4}{let $z: 'four' /}{$z}{$a.b}{default}d{/switch}
+     C
+   {/if}            with x = 4 (generated variable x_3, counter 3), a.b = 5 *)
+Definition ex_sc2 : list (list (bstr * bstr)) := [[(b "x", b "x_3")]].
+Definition ex_stmt : cstmt :=
+  SIf (CBool true)
+      (BCons (SIf (CBin OGt (CVar (b "x") []) (CInt 3))
+                  (BCons (SLet (b "y") (CBin OAdd (CVar (b "x") []) (CInt 1))) (BCons (SRaw (b "A")) (BCons (SLetC (b "t") (BCons (SRaw (b "<")) (BCons (SPrint (CVar (b "y") []) []) BNil))) (BCons (SPrint (CVar (b "t") []) []) BNil))))
+                  (EElif (CBin OGt (CVar (b "x") []) (CInt 1)) (BCons (SRaw (b "E")) BNil) (EElse (BCons (SRaw (b "B")) BNil))))
+      (BCons (SSwitch (CVar (b "x") [])
+                (KCase (CInt 1) [CInt 2] (BCons (SRaw (b "one")) BNil)
+                (KCase (CInt 4) [] (BCons (SLet (b "z") (CStr (b "four"))) (BCons (SPrint (CVar (b "z") []) []) (BCons (SPrint (CVar (b "a") [CAKey false (b "b")]) []) BNil)))
+                (KDefault (BCons (SRaw (b "d")) BNil)))))
+      (BCons (SRaw (b "C")) BNil))) ENone.
+Example C04_stmt_nonvacuous :
+  (match sout None 1 go_print_text ex_env ex_stmt with Some (t, _) => Some t | None => None end) = Some (b "A&lt;5four5C")
+  /\ snd (sgen 1 (b "output") ex_sc2 3 ex_stmt) = (ex_sc2, 6)
+  /\ (match js_exec {| je_vars := [(b "output", JStr []); (b "x_3", JNum 4)]; je_data := JObj [(b "a", JObj [(b "b", JNum 5)])] |}
+                     (fst (sgen 1 (b "output") ex_sc2 3 ex_stmt)) with
+      | Ok je' => Some (je_vars je') | _ => None end)
+     = Some [(b "output", JStr (b "A&lt;5four5C")); (b "x_3", JNum 4); (b "y_4", JNum 5); (b "t_5", JStr (b "<5")); (b "z_6", JStr (b "four"))]
+  /\ render_chunks is_print_tbl (sprint 1 (fst (sgen 1 (b "output") ex_sc2 3 ex_stmt))) = b
+"  if (true) {
+    if (((x_3) > (3))) {
+      var y_4 = ((x_3) + (1));
+      output += 'A';
+      var t_5 = '';
+      t_5 += '\u003C';
+      t_5 += soy.$$escapeHtml(y_4);
+      output += soy.$$escapeHtml(t_5);
+    } else if (((x_3) > (1))) {
+      output += 'E';
+    } else {
+      output += 'B';
+    }
+    switch (x_3) {
+      case 1:
+      case 2:
+        output += 'one';
+        break;
+      case 4:
+        var z_6 = 'four';
+        output += soy.$$escapeHtml(z_6);
+        output += soy.$$escapeHtml(opt_data.a.b);
+        break;
+      default:
+        output += 'd';
+        break;
+    }
+    output += 'C';
+  }
+".
+Proof. vm_compute. repeat split; reflexivity. Qed.
+
+(* the generator invariant is satisfiable for that scope, counter 3 and the buffer variable output *)
+Example C04_ginv_nonvacuous : ginv ex_sc2 3 (b "output").
+Proof.
+  assert (Hl : forall key, jsc_lookup ex_sc2 key = if bstr_eqb key (b "x") then b "x_3" else []).
+  { intro key. unfold ex_sc2. cbn [jsc_lookup]. unfold assoc_s. destruct (bstr_eqb key (b "x")); reflexivity. }
+  constructor.
+  - discriminate.
+  - intro key. rewrite Hl. destruct (bstr_eqb key (b "x")); [|apply bounded_nil]. exact (bounded_name 3 (b "x") 3 ltac:(reflexivity)).
+  - apply bounded_no_us. vm_compute. intuition discriminate.
+  - intro key. rewrite Hl. destruct (bstr_eqb key (b "x")); reflexivity.
+  - reflexivity.
+Qed.
 
 (* env_rel is satisfiable for that environment: x is in the generated variable, a in opt_data *)
 Example C04_env_rel_nonvacuous : env_rel ex_sc None ex_env ex_je.
